@@ -5,7 +5,7 @@ usage: confirm_seed.py <seed-id> <property> <patch.diff> <demo.rs> <notes.md>"""
 import sys, os, subprocess, json, shutil, re
 V = os.path.dirname(os.path.dirname(os.path.abspath(__file__)))
 sid, prop, patch, demo, notes = sys.argv[1:6]
-WT = '/tmp/confirm_wt'
+WT = os.environ.get('CONFIRM_WT', '/tmp/confirm_wt')
 ENV = dict(os.environ, CARGO_NET_OFFLINE='true')
 def sh(cmd, **kw):
     return subprocess.run(cmd, shell=True, capture_output=True, text=True, env=ENV, **kw)
